@@ -310,6 +310,14 @@ func (x *Exec) axiomRelevant(ax AxiomDecl) bool {
 
 // prelude returns the SMT-LIB header (sorts, literals, library axioms).
 func (x *Exec) prelude() string {
+	if x.preludeText != "" {
+		return x.preludeText
+	}
+	x.preludeText = x.buildPrelude()
+	return x.preludeText
+}
+
+func (x *Exec) buildPrelude() string {
 	var b strings.Builder
 	b.WriteString("(set-logic ALL)\n")
 	if x.strTheory {
